@@ -29,6 +29,11 @@ PROGRAMS = {
                "        END GO\n"],
     "big60k": ["        NAM most\n", "        ORG $0800\n", "GO      LDX #$BEEF\n", "        RMB 30000\n", "        FCB 1,2,3\n", "        RMB 30400\n",
                "        FDB $5AA5\n", "        RTS\n"],
+    # machine code that contains the tape block marker $55 $3C (followed by $FF, $01 and another value) inside cassette blocks,
+    # assembled at an origin that is itself the marker
+    "markers": ["        NAM marks\n", "        ORG $553C\n", "GO      LDA #$55\n", "        CWAI #$FF\n", "        LDB #$55\n", "        CWAI #$EF\n"] +
+               ["        FDB $%04X\n" % (0x1000 + 7 * k) for k in range(140)] +
+               ["        FCB $55,$3C,$01,$02\n", "        LDA #$55\n", "        CWAI #$FF\n", "        RTS\n", "        END GO\n"],
     "bad": ["        ORG $0E00\n", "        LDA #$41\n", "        FOO 12\n"],
     "undefined": ["        ORG $0E00\n", "        JMP NOWHERE\n"],
 }
@@ -132,6 +137,7 @@ class CliAssembler:
                 if prog == "named" and len(combo) == 3:
                     continue
                 out.append({"id": "asm/combined/%s/%s" % ("+".join(combo), prog), "k": "all3", "combo": combo, "prog": prog})
+        out.append({"id": "asm/combined/bin+cas+dsk/markers", "k": "all3", "combo": ("bin", "cas", "dsk"), "prog": "markers"})
         out.append({"id": "asm/combined/bin+cas+dsk/big51k", "k": "all3", "combo": ("bin", "cas", "dsk"), "prog": "big51k"})
         out.append({"id": "asm/combined/cas+dsk/big60k", "k": "all3", "combo": ("cas", "dsk"), "prog": "big60k"})
         out.append({"id": "asm/sequence/cas-append-twice", "k": "seq", "t": "cas"})
@@ -177,6 +183,25 @@ class CliAssembler:
             ok = g[0].upper().ljust(8) == w[0].upper().ljust(8) and g[1] == w[1] and g[2] == w[2] and g[3] == w[3] and g[4] == w[4]
             env.ensure(clause, ok, props, sig("file@%d:name=%s,load=%s,exec=%s,len=%d" % (j, g[0].upper() == w[0].upper(), g[2] == w[2],
                                                                                              g[3] == w[3], len(g[4]))))
+        # ... and the TOOL's own listing of that image returns the same files (the property speaks of listing the image)
+        from pyvc.filesh import Files, Raised
+        F = Files(env)
+        try:
+            cont = F.new("cocoasm.virtualfiles.cassette" if t == "cas" else "cocoasm.virtualfiles.disk",
+                         "CassetteFile" if t == "cas" else "DiskFile", buffer=list(content))
+            listed = list(F.method(cont, "list_files"))
+        except Raised as e:
+            env.fail(clause + ":tool-listing", props, sig("tool-listing-raised:%s" % e.cls))
+            return
+        if len(listed) != len(want):
+            env.fail(clause + ":tool-listing", props, sig("tool-listing:file-count=%d,want=%d" % (len(listed), len(want))))
+            return
+        for j, (g, w) in enumerate(zip(listed, want)):
+            la, ea = F.get(g, "load_addr"), F.get(g, "exec_addr")
+            ok = str(F.get(g, "name")).upper().strip().ljust(8) == w[0].upper().strip().ljust(8) and F.intval(F.get(g, "type")) == w[1] and \
+                (not F.is_none_value(la)) and F.intval(la) == w[2] and (not F.is_none_value(ea)) and F.intval(ea) == w[3] and \
+                list(F.get(g, "data")) == list(w[4])
+            env.ensure(clause + ":tool-listing", ok, props, sig("tool-listing:file@%d:len=%d,want=%d" % (j, len(list(F.get(g, "data"))), len(w[4]))))
 
     def k_save(self, env, cell, native):
         t, ap, pre, prog = cell["t"], cell["append"], cell["pre"], cell["prog"]
@@ -392,6 +417,12 @@ FILESETS = {
                  ("TXT2299", "TXT", 1, 0xFF, 0, 0, [65 + i % 26 for i in range(2299)]),
                  ("TXT2303", "TXT", 1, 0xFF, 0, 0, [66 + i % 25 for i in range(2303)]),
                  ("TXT4607", "TXT", 1, 0xFF, 0, 0, [67 + i % 24 for i in range(4607)])],
+    # tape markers where they can mislead a reader that resynchronises by searching: $55 $3C in the load / entry address, in the
+    # last header bytes, and $55 $3C $00 / $01 / $FF inside the data (also behind the first bytes of a block)
+    "markers": [("SPRITES", "BIN", 2, 0, 0x553C, 0x0128, [(9 * i + 1) % 256 for i in range(64)]),
+                ("ENTRY", "BIN", 2, 0, 0x1255, 0x3C01, [0x86, 0x55, 0x3C, 0xFF, 0x12, 0x39] + [0x12] * 300 + [0x55, 0x3C, 0x01, 0x02, 0x39]),
+                ("EXEC", "BIN", 2, 0, 0x0E00, 0x553C, [1, 2, 0x55, 0x3C, 0x00, 3, 4] * 40),
+                ("LAST", "BIN", 2, 0, 0x3C55, 0x5555, [0x55] * 255 + [0x3C] * 3)],
     "with-empty": [("FIRST", "BIN", 2, 0, 0x1000, 0x1000, [1, 2]), ("EMPTY", "BIN", 2, 0, 0x2000, 0x2000, []),
                    ("LAST", "BIN", 2, 0, 0x3000, 0x3000, [5])],
 }
